@@ -562,7 +562,12 @@ func c10Parked(c *fw.Ctx, id string, scenario string) {
 			// a deref issued now (the body is still blocked) must end with its own caller's deadline
 			if bodyKind == "gate" {
 				t1 := time.Now()
-				dd := w.do(2, "deref", 30*time.Millisecond)
+				var dd c10Op
+				if !fw.WithTimeout(5*time.Second, func() { dd = w.do(2, "deref", 30*time.Millisecond) }) {
+					viol("R7:deref-ignores-caller-context", "a deref with a 30 ms deadline on a cancelled future whose body is still blocked had not returned after 5 s")
+					w.openGate()
+					return
+				}
 				if el := time.Since(t1); el > 3*time.Second || !dd.TimedOut {
 					viol("R7:deref-ignores-caller-context", fmt.Sprintf("a deref with a 30 ms deadline on a cancelled future whose body is still blocked took %v and returned %s", el, dd))
 					w.openGate()
